@@ -319,6 +319,12 @@ func (c *Ctx) ruleM4(rule string) {
 					if b, ok := g.Cond.(*ssa.BinOp); ok && b.Op.String() == "==" && g.Pol && isReflectValue(b.X.Type()) {
 						nilRet = true
 					}
+					// the same test written !v.IsValid()
+					if call, ok := x.Origin(g.Cond).(*ssa.Call); ok && !g.Pol {
+						if nm, cc := reflectMethod(call); cc != nil && nm == "IsValid" {
+							nilRet = true
+						}
+					}
 				}
 				continue
 			}
